@@ -44,6 +44,10 @@ inductive FFields
   | paramVal (g0 : Bytes) (isU : Bool) (name : Bytes) (g1 : Bytes) (val : Scal) (g2 : Bytes) (rest : FFields)
   | paramObj (g0 : Bytes) (isU : Bool) (name : Bytes) (g1 : Bytes) (key : Scal) (g2 : Bytes) (op : Op)
       (v : FVal) (inner : FFields) (gc : Bytes) (rest : FFields)
+  /-- `[[name] value ] { … }`: the value of a parameter block directly followed by a non-empty
+  container is the header of that container -/
+  | paramHdr (g0 : Bytes) (isU : Bool) (name : Bytes) (g1 : Bytes) (val : Scal) (g2 : Bytes) (body : FVal)
+      (rest : FFields)
 inductive FVals
   | nil
   | cons (v : FVal) (rest : FVals)
@@ -92,6 +96,8 @@ def frenderF : FFields → Bytes
   | .paramObj g0 isU name g1 k g2 o v inner gc rest =>
     g0 ++ (paramOpen isU name ++ (g1 ++ (k.text ++ (g2 ++ (o.text ++ (frenderV v ++ (frenderF inner ++
       (gc ++ 93 :: frenderF rest))))))))
+  | .paramHdr g0 isU name g1 val g2 body rest =>
+    g0 ++ (paramOpen isU name ++ (g1 ++ (val.text ++ (g2 ++ 93 :: (frenderV body ++ frenderF rest)))))
 def frenderVs : FVals → Bytes
   | .nil => []
   | .cons v rest => frenderV v ++ frenderVs rest
@@ -115,7 +121,7 @@ def FVal.gap : FVal → Bytes
 
 /-- a field list that starts with a header field or a parameter block -/
 def FFields.startsSpecial : FFields → Prop
-  | .consHdr .. | .paramVal .. | .paramObj .. => True
+  | .consHdr .. | .paramVal .. | .paramObj .. | .paramHdr .. => True
   | _ => False
 
 def FFields.hdrLed : FFields → Prop
@@ -188,6 +194,10 @@ def FValidF : FFields → Bytes → Prop
     StartsBoundary (g2 ++ o.text) ∧
     FValidV v (frenderF inner ++ (gc ++ 93 :: (frenderF rest ++ after))) ∧
     FValidF inner (gc ++ 93 :: (frenderF rest ++ after)) ∧ FValidF rest after
+  | .paramHdr g0 isU name g1 val g2 body rest, after =>
+    Blank g0 ∧ Blank g1 ∧ Blank g2 ∧ IsParamName name ∧ val.Valid ∧ val.quoted = false ∧
+    StartsBoundary (g2 ++ 93 :: (frenderV body ++ (frenderF rest ++ after))) ∧
+    body.isContainer ∧ FValidV body (frenderF rest ++ after) ∧ FValidF rest after
 def FValidVs : FVals → Bytes → Prop
   | .nil, _ => True
   | .cons v rest, after => FValidV v (frenderVs rest ++ after) ∧ FValidVs rest after
@@ -224,6 +234,7 @@ def fcntF : FFields → Nat
   | .consHdr _ _ _ o _ _ body rest => (1 + o.toks.length + (1 + fcntV body)) + fcntF rest
   | .paramVal _ _ _ _ _ _ rest => 2 + fcntF rest
   | .paramObj _ _ _ _ _ _ o v inner _ rest => (3 + (1 + o.toks.length + fcntV v) + fcntF inner) + fcntF rest
+  | .paramHdr _ _ _ _ _ _ body rest => (2 + fcntV body) + fcntF rest
 def fcntVs : FVals → Nat
   | .nil => 0
   | .cons v rest => fcntV v + fcntVs rest
@@ -299,6 +310,11 @@ def ftapeF : FFields → Nat → Bytes → List Tok
       ftapeF inner (base + 2 + (1 + o.toks.length + fcntV v)) (gc ++ 93 :: R) ++
       [.endTok (base + 1)] ++
       ftapeF rest (base + ((3 + (1 + o.toks.length + fcntV v) + fcntF inner))) after
+  | .paramHdr _ isU name g1 val g2 body rest, base, after =>
+    let R := frenderV body ++ (frenderF rest ++ after)
+    [paramTok isU ⟨(name ++ 93 :: (g1 ++ (val.text ++ (g2 ++ 93 :: R)))).length, name⟩,
+      .header ⟨(val.text ++ (g2 ++ 93 :: R)).length, val.bytes⟩] ++
+      ftapeV body (base + 2) (frenderF rest ++ after) ++ ftapeF rest (base + (2 + fcntV body)) after
 def ftapeVs : FVals → Nat → Bytes → List Tok
   | .nil, _, _ => []
   | .cons v rest, base, after =>
@@ -333,6 +349,7 @@ def fstepsF : FFields → Nat
   | .consHdr _ _ _ _ _ _ body rest => 3 + fstepsV body + fstepsF rest
   | .paramVal _ _ _ _ _ _ rest => 1 + fstepsF rest
   | .paramObj _ _ _ _ _ _ _ v inner _ rest => 2 + fstepsV v + fstepsF inner + 1 + fstepsF rest
+  | .paramHdr _ _ _ _ _ _ body rest => 1 + fstepsV body + fstepsF rest
 def fstepsVs : FVals → Nat
   | .nil => 0
   | .cons v rest => fstepsV v + fstepsVs rest
